@@ -19,16 +19,21 @@ validated the same way (`sqlck`). In addition to `SqlSem.lean`:
 namespace Discret.SqlSem
 open Discret.Query Discret.SqlGen
 
+/-- does the group start with a row that has the keys of `r`? -/
+def leads {α : Type} (same : α → α → Bool) (r : α) : List α → Bool
+  | x :: _ => same x r
+  | [] => false
+
+def joinGroup {α : Type} (same : α → α → Bool) (r : α) : List α → List α
+  | x :: t => if same x r then r :: x :: t else x :: t
+  | [] => []
+
 /-- groups in order of first appearance, each in scan order -/
 def groupBy {α : Type} (same : α → α → Bool) : List α → List (List α)
   | [] => []
   | r :: rest =>
     let gs := groupBy same rest
-    if gs.any (fun g => match g with | x :: _ => same x r | [] => false) then
-      gs.map fun g => match g with
-        | x :: _ => if same x r then r :: g else g
-        | [] => g
-    else [r] :: gs
+    if gs.any (leads same r) then gs.map (joinGroup same r) else [r] :: gs
 
 /-- the extreme of a list under `lt` (the first one among equals, from the right) -/
 def pick (lt : SqlVal → SqlVal → Bool) : List SqlVal → Option SqlVal
